@@ -25,7 +25,7 @@ PER = 5
 
 def cases(tier: str, seed: int) -> List[Dict[str, Any]]:
     n = 120 if tier == 'quick' else 2500
-    return [{'seed': seed, 'k': k, 'n': PER, 'max_orders': 6 if tier == 'quick' else 24} for k in range(0, n, PER)]
+    return [{'seed': seed, 'k': k, 'n': PER, 'max_orders': 6 if tier == 'quick' else 24} for k in range(0, n, PER)] + [{'part': 'D', 'name': nm} for nm in DIRECTED]
 
 
 def worker_init() -> None:
@@ -187,9 +187,64 @@ def _check_system(spec: project.Spec, system: Any, res: Optional[core.Res]) -> L
     return out
 
 
+# hand-written projects with the expected moves stated ({old qualified name: new qualified name}); every reachable order
+DIRECTED: Dict[str, Any] = {
+    # the re-exporter takes the name from a module that merely imported it; the *defining* module lists it in its own __all__, the module it is
+    # imported from does not: the object moves
+    'chained-import': ({'pkg/__init__.py': '', 'pkg/_core.py': "class Thing:\n    def m(self): pass\ndef helper(): pass\n__all__ = ['Thing', 'helper']\n",
+                        'pkg/_mid.py': 'from pkg._core import Thing, helper\n', 'pkg/api.py': "from pkg._mid import Thing, helper as aid\n__all__ = ['Thing', 'aid']\n",
+                        'pkg/user.py': 'from pkg.api import Thing\nclass U(Thing):\n    pass\n'},
+                       {'pkg._core.Thing': 'pkg.api.Thing', 'pkg._core.helper': 'pkg.api.aid', 'pkg._core.Thing.m': 'pkg.api.Thing.m'}),
+    # objects defined in a package __init__ and re-exported by a submodule whose name starts with the name of one of them
+    'reexporter-name-starts-with-object-name': ({'pkg/__init__.py': 'def emit(): pass\nclass Event:\n    def fire(self): pass\nclass Sink: pass\n',
+                                                 'pkg/emitter.py': "from pkg import emit, Event, Sink as Drain\n__all__ = ['emit', 'Event', 'Drain']\n",
+                                                 'pkg/eventlog.py': "from pkg.emitter import Event\nclass Logged(Event):\n    pass\n"},
+                                                {'pkg.emit': 'pkg.emitter.emit', 'pkg.Event': 'pkg.emitter.Event', 'pkg.Sink': 'pkg.emitter.Drain', 'pkg.Event.fire': 'pkg.emitter.Event.fire'}),
+}
+
+
+def _run_directed(case: Dict[str, Any], res: core.Res) -> None:
+    import shutil
+    import tempfile
+    from pathlib import Path
+    from vf.mon import sched
+    srcs, expect = DIRECTED[case['name']]
+    base = Path(tempfile.mkdtemp(prefix='vf07d-'))
+    try:
+        for rel, text in srcs.items():
+            pth = base / rel
+            pth.parent.mkdir(parents=True, exist_ok=True)
+            pth.write_text(text)
+        orders: List[List[str]] = []
+        projrun.build_system([base / 'pkg'], order=lambda system: orders.extend(sched.all_orders(system, limit=120)))
+        for od in orders:
+            label = f"directed:{case['name']}"
+            try:
+                system = projrun.build_system([base / 'pkg'], order=lambda system, od=od: sched.apply_order(system, od))
+            except Exception as e:  # noqa: BLE001
+                res.v(f'C07:analysis-raises:{type(e).__name__}', f'{label}: analysis raised {e!r} under {od}', order=od, sources=srcs)
+                continue
+            res.c('orders_run')
+            res.c('evaluations')
+            res.c('directed_orders')
+            res.distinct(f'{label}/{",".join(od)}')
+            for old, new in expect.items():
+                res.c('moved_objects_checked')
+                if new not in system.allobjects:
+                    res.v('C07:not-at-exported-name', f'{label} order {od}: {old} is re-exported as {new} but nothing is documented there', order=od, sources=srcs)
+                if old in system.allobjects:
+                    res.v('C07:still-at-old-name', f'{label} order {od}: {old} is re-exported as {new} but is still documented under its old name', order=od, sources=srcs)
+    finally:
+        shutil.rmtree(base, ignore_errors=True)
+    res.sample({'directed': case['name']})
+
+
 def run_case(case: Dict[str, Any]) -> core.Res:
     from vf.mon import sched, repairs
     res = core.Res()
+    if case.get('part') == 'D':
+        _run_directed(case, res)
+        return res
     specs = [project.generate(core.rng('C07', case['seed'], case['k'] + j), project.Features.reexport()) for j in range(case['n'])]
     with projrun.TmpProjects(specs, seed=('C07', case['seed'], case['k'])) as tp:
         for j, spec in enumerate(specs):
